@@ -116,6 +116,7 @@ def r11_2(ctx: Ctx):
         return
     from .c13 import _loop_over_listeners
     C.refuse_peeled_loop(rid, drv)
+    C.refuse_comprehension_loop(ctx, rid, drv)
     loops = [n for n in ast.walk(drv.node) if isinstance(n, ast.For) and not _loop_over_listeners(ctx, drv, n)]
     ctx.floor(rid, 'iteration loops in the driver', len(loops), 1)
     # names that only feed a diagnostic statement (logging call / print whose value is not used)
